@@ -247,4 +247,22 @@ theorem median_spec_iff (v : List ℝ) (hv : v ≠ []) :
 theorem median_empty : median ([] : List ℝ) = .ok (0, []) := by
   simp [median]
 
+/-! ## correlation -/
+
+/-- Cauchy–Schwarz: the Pearson correlation of two non-constant samples of equal length `≥ 2`
+is defined and lies in `[-1, 1]`.  (For a constant sample the code divides by a zero standard
+deviation — NaN in floating point — which is why the hypothesis is needed.) -/
+theorem cor_sq_le_one (v1 v2 : List ℝ) (h : v1.length = v2.length) (hn : 2 ≤ v1.length)
+    (h1 : ∃ x ∈ v1, ∃ y ∈ v1, x ≠ y) (h2 : ∃ x ∈ v2, ∃ y ∈ v2, x ≠ y) :
+    ∃ r, cor v1 v2 = .ok r ∧ r ^ 2 ≤ 1 := cor_sq_le_one' v1 v2 h hn h1 h2
+
+theorem cor_range (v1 v2 : List ℝ) (h : v1.length = v2.length) (hn : 2 ≤ v1.length)
+    (h1 : ∃ x ∈ v1, ∃ y ∈ v1, x ≠ y) (h2 : ∃ x ∈ v2, ∃ y ∈ v2, x ≠ y) :
+    ∃ r, cor v1 v2 = .ok r ∧ -1 ≤ r ∧ r ≤ 1 := by
+  obtain ⟨r, hr, hsq⟩ := cor_sq_le_one' v1 v2 h hn h1 h2
+  exact ⟨r, hr, by nlinarith, by nlinarith⟩
+
+example : ∃ r, cor ([1, 2, 4] : List ℝ) [3, 1, 0] = .ok r ∧ r ^ 2 ≤ 1 :=
+  cor_sq_le_one _ _ rfl (by decide) ⟨1, by simp, 2, by simp, by norm_num⟩ ⟨3, by simp, 1, by simp, by norm_num⟩
+
 end Bpp.C07
